@@ -1,1 +1,76 @@
-(* placeholder *)
+(** C01 — committed transactions survive any crash; restart always succeeds.
+    C02's statement (unfinished work leaves no trace) is the other half of the
+    same theorem and lives in Props/C02.v.
+
+    Objects (Model/Wal.v): [l] is the durable log of the crash image (the
+    records of pages whose creation is in the log: [scope]), [disk] the table
+    pages found in the data file, [order] the order in which the restart
+    undoes the unfinished transactions (the code iterates a Go map: any order).
+    [image_wf l disk] collects the checkable facts the engine is expected to
+    establish (and the correspondence run evaluates on every real crash
+    image): the log replays ([log_ok]), prevLSN chains are intact
+    ([chains_ok]), strict two-phase locking kept unfinished transactions'
+    slots to themselves ([strict_ok]), table pages are not re-created
+    ([fresh_pages_ok]), every page in the file is the state of that page after
+    SOME prefix of the log — pages are written whole and only after their log
+    records (write-ahead logging, C08) — ([disk_ok]), and the crash did not hit
+    the middle of a commit that applies deletes ([no_loser_apply]).
+    The theorems hold for EVERY such log, disk image and undo order: every
+    history, every eviction pattern, every crash point.  Statements only. *)
+From Coq Require Import List NArith Bool Permutation.
+From SDB Require Import Base.Assoc Model.Page Model.Wal Proofs.WalProofs.
+Import ListNotations.
+Open Scope N_scope.
+
+(** Redo repeats history: whatever subset of pages had reached the file, and
+    in whatever state, after redo every page is exactly as it was in memory
+    when the last durable record was written. *)
+Theorem redo_repeats_history : forall l disk, log_ok l = true -> disk_ok l disk = true ->
+  forall p, get_page (redo l disk) p = get_page (replay l []) p.
+Proof. exact redo_repeats. Qed.
+Print Assumptions redo_repeats_history.
+
+(** After restart every slot of every table page holds exactly what the finished
+    (committed, or completely rolled back) transactions left there. *)
+Theorem recovery_restores_committed_state : forall l disk order, image_wf l disk = true ->
+  Permutation order (losers l) ->
+  forall p s, page_val (recover l order disk) p s = committed_val l p s.
+Proof. exact recover_committed. Qed.
+Print Assumptions recovery_restores_committed_state.
+
+(** In particular the last change a committed transaction made to a row is there:
+    if record [r] of a committed transaction is the last record on its slot not written by an
+    unfinished transaction, the slot holds the result of [r]. *)
+Theorem committed_effects_survive : forall l disk order p s pre r post,
+  image_wf l disk = true -> Permutation order (losers l) ->
+  l = pre ++ r :: post -> on_slot p s r = true ->
+  existsb (fun r' => (l_txn r' =? l_txn r) && match l_kind r' with KCommit => true | _ => false end) l = true ->
+  forallb (fun r' => negb (on_slot p s r') || memN (l_txn r') (losers l)) post = true ->
+  forallb (fun r' => match l_kind r' with KNewPage _ p' => negb (p' =? p) | _ => true end) post = true ->
+  page_val (recover l order disk) p s =
+    slot_step (slot_val (filter (fun r' => negb (memN (l_txn r') (losers l))) pre) p s) (l_kind r).
+Proof. exact committed_survive. Qed.
+Print Assumptions committed_effects_survive.
+
+(** Restart itself always succeeds: no page operation of redo or undo panics,
+    runs out of space or fails. *)
+Theorem restart_succeeds : forall l disk order, image_wf l disk = true ->
+  Permutation order (losers l) ->
+  forallb out_ok (recover_outs l order disk) = true.
+Proof. exact restart_ok. Qed.
+Print Assumptions restart_succeeds.
+
+(** Non-vacuity: a crash image with a committed insert+update, a committed
+    delete, an unfinished insert on the same page, one page already on disk in
+    an intermediate state and one never written. *)
+Example c01_nonvacuous :
+  let l := [ mkR 0 1 None KBegin; mkR 1 1 (Some 0) (KNewPage 0 5); mkR 2 1 (Some 1) (KInsert 5 0 [1;2;3]);
+             mkR 3 1 (Some 2) KCommit;
+             mkR 4 2 None KBegin; mkR 5 2 (Some 4) (KUpdate 5 0 [1;2;3] [9;9;9;9]); mkR 6 2 (Some 5) (KInsert 5 1 [7]);
+             mkR 7 2 (Some 6) KCommit;
+             mkR 8 3 None KBegin; mkR 9 3 (Some 8) (KInsert 5 2 [8;8]);
+             mkR 10 4 None KBegin; mkR 11 4 (Some 10) (KMark 5 1); mkR 12 4 (Some 11) (KApply 5 1 [7]); mkR 13 4 (Some 12) KCommit ] in
+  let disk := [ (5, mkAP 5 [Some ([9;9;9;9], false)]) ] in
+  image_wf l disk = true /\ losers l = [3] /\
+  map (page_val (recover l [3] disk) 5) [0; 1; 2] = [Some ([9;9;9;9], false); None; None].
+Proof. vm_compute. repeat split. Qed.
